@@ -1056,7 +1056,7 @@ class Wavefront:
 
         return Wavefront(dx=dx, cmplx_field=data, wavelength=self.wavelength, space='pupil')
 
-    def to_fpm_and_back(self, efl, fpm, fpm_dx, method='mdft', shift=(0, 0), return_more=False):
+    def to_fpm_and_back(self, efl, fpm, fpm_dx=None, method='mdft', shift=(0, 0), return_more=False):
         """Propagate to a focal plane mask, apply it, and return.
 
         This routine handles normalization properly for the user.
@@ -1089,6 +1089,9 @@ class Wavefront:
             new wavefront, [field at fpm, field after fpm]
 
         """
+        if isinstance(fpm, Wavefront):
+            fpm_dx = fpm.dx  # the spacing reported for the focal plane fields
+
         pak = to_fpm_and_back(self.data, dx=self.dx, wavelength=self.wavelength,
                               efl=efl, fpm=fpm, fpm_dx=fpm_dx, method=method,
                               shift=shift, return_more=return_more)
@@ -1135,6 +1138,9 @@ class Wavefront:
             new wavefront, [field at fpm, field after fpm]
 
         """
+        if isinstance(fpm, Wavefront):
+            fpm_dx = fpm.dx  # the spacing reported for the focal plane fields
+
         pak = to_fpm_and_back_backprop(self.data, self.dx, self.wavelength,
                                        efl=efl, fpm=fpm, fpm_dx=fpm_dx,
                                        method=method, shift=shift,
@@ -1198,6 +1204,13 @@ class Wavefront:
             field after lyot, [field at fpm, field after fpm, field at lyot]
 
         """
+        if isinstance(fpm, Wavefront):
+            fpm_dx = fpm.dx
+            fpm = fpm.data
+
+        if isinstance(lyot, Wavefront):
+            lyot = lyot.data
+
         fpm = 1 - fpm
         if return_more:
             field, field_at_fpm, field_after_fpm = \
@@ -1254,6 +1267,13 @@ class Wavefront:
         # c = iDFT(C)      | Cbar to Abar absorbed in to_fpm_and_back_backprop
         # d = c*L          | cbar = dbar * conj(L)
         # f = d - flip(a)  | dbar = d
+
+        if isinstance(fpm, Wavefront):
+            fpm_dx = fpm.dx
+            fpm = fpm.data
+
+        if isinstance(lyot, Wavefront):
+            lyot = lyot.data
 
         fpm = 1 - fpm
 
